@@ -67,3 +67,25 @@ Proof. exact two_rule_doubling. Qed.
 Print Assumptions C15_two_rule_doubling.
 Example C15_example_two : twopoint_new 2 4 = [3; 27; 19; 43] /\ visited 47 3 4 3 = [3; 43; 27; 19].
 Proof. vm_compute. split; reflexivity. Qed.
+
+From Coq Require Import Reals List ZArith.
+From Coquelicot Require Import Coquelicot.
+From LV Require Import Base.NumOps Base.RInst Quad.QuadModel Quad.QuadTransform.
+Import ListNotations.
+Local Open Scope R_scope.
+(* The linear interval map of transformRMinMax preserves the integral (Quad/QuadTransform.v). *)
+Theorem C15_window_of_the_linear_map : forall z p, 0 < z -> 0 <= p ->
+  let '(rmid, amid) := rminmax ROps z p in
+  amid - rmid = rmin_of z p /\ amid + rmid = rmax_of z p /\ 0 < rmid.
+Proof. exact rminmax_window. Qed.
+Theorem C15_transformed_rule_sum : forall (rmid amid : R) (f : R -> R) (xw : list (R * R)),
+  fold_right (fun p acc => (rmid * snd p) * f (rmid * fst p + amid) + acc) 0 xw
+  = fold_right (fun p acc => snd p * (rmid * f (rmid * fst p + amid)) + acc) 0 xw.
+Proof. exact transformed_rule_sum. Qed.
+Theorem C15_linear_map_preserves_the_integral : forall z p (f : R -> R), 0 < z -> 0 <= p ->
+  ex_RInt f (rmin_of z p) (rmax_of z p) ->
+  let '(rmid, amid) := rminmax ROps z p in
+  RInt (fun t => rmid * f (rmid * t + amid)) (-1) 1 = RInt f (rmin_of z p) (rmax_of z p).
+Proof. exact window_integral. Qed.
+Print Assumptions C15_linear_map_preserves_the_integral.
+
